@@ -530,7 +530,7 @@ pub fn history(variant: &str, steps: &[&str]) -> Vec<String> {
         let o = usz(p[1]);
         let cont = match p[0] {
             "u" => {
-                let d = expand(p[2]);
+                let d = skew(&expand(p[2]));
                 step(&mut out, || {
                     let c = objs[o].take().expect("consumed object");
                     objs[o] = Some(c.upd(&d));
@@ -538,7 +538,7 @@ pub fn history(variant: &str, steps: &[&str]) -> Vec<String> {
                 })
             }
             "m" => {
-                let d = expand(p[2]);
+                let d = skew(&expand(p[2]));
                 step(&mut out, || {
                     objs[o].as_mut().unwrap().updm(&d);
                     None
